@@ -2,8 +2,11 @@
 import itertools
 
 PID = "C16"
-SUBS = ["C16", "C16inv"]
-RULE = ("diff: every pair of location lists of length <= 4 over a 3-letter alphabet (exhaustive in the thorough tier, "
+SUBS = ["C16", "C16inv", "C16e2e"]
+PARALLEL = {"C16e2e": 6}
+RULE = ("end to end (exhaustive): Funcs taking a pointer, a map and a slice, each as value / typed nil / untyped nil, and Funcs "
+        "taking a func and a chan, run in real sessions (local, bigmachine): encodable arguments build the same slice on every "
+        "executor, unencodable ones make Run fail promptly on bigmachine, nothing crashes or hangs; diff: every pair of location lists of length <= 4 over a 3-letter alphabet (exhaustive in the thorough tier, "
         "length <= 3 in quick) plus random longer pairs; transport: random well-typed and ill-typed argument lists "
         "over 6 registered Funcs (scalars, strings, slices, maps, structs, pointers, interface parameters holding "
         "registered concrete types, nil, *Result); non-trivial = lists differ / at least one non-scalar argument")
@@ -14,6 +17,17 @@ LEVEL_NOTE = ("diff laws proved for all lists (BS.Diff.diff_nil_iff_eq, diff_tra
 
 
 def gen(r, tier, sub):
+    if sub == "C16e2e":
+        # exhaustive: every combination of pointer / map / slice argument shapes (value, typed nil, untyped nil) and the
+        # two never-encodable parameter types, on the local executor and two bigmachine configurations
+        for cfg in ("local", "bm M2 P2", "bm M1 P2 MC"):
+            for p in ("pst:5", "nilpst", "nil"):
+                for m in ("map:1,2", "map:", "nilmap", "nil"):
+                    for xs in ("ints:1,2,3", "ints:", "nilints", "nil"):
+                        yield "%s ;; E0 %s %s %s" % (cfg, p, m, xs)
+            yield "%s ;; E1 fn" % cfg
+            yield "%s ;; E2 ch" % cfg
+        return
     if sub == "C16":
         maxlen = 3 if tier == "quick" else 4
         alpha = ["a.go:1", "b.go:2", "c.go:3"]
@@ -44,11 +58,11 @@ def gen(r, tier, sub):
         n = 1500 if tier == "quick" else 20000
         sigs = [
             [["int"], ["str"]],
-            [["ints", "nilints"], ["map", "nilmap"]],
-            [["st"], ["pst"]],
+            [["ints", "nilints", "nil"], ["map", "nilmap", "nil"]],
+            [["st"], ["pst", "nil"]],
             [["int", "i64", "str", "ints", "nilints", "map", "nilmap", "st", "impl", "nil", "f64", "bool", "u8", "bytes", "res"], ["impl", "nil"]],
-            [["res"], ["res", "nil"], ["i64"]],
-            [["f64"], ["bool"], ["u8"], ["bytes"]],
+            [["res", "nil"], ["res", "nil"], ["i64"]],
+            [["f64"], ["bool"], ["u8"], ["bytes", "nil"]],
         ]
         allk = sigs[3][0] + ["pst"]
 
